@@ -20,10 +20,10 @@ const hooksAvailable = true
 // them) - deliberately no atomics and no shared counters, which would add
 // happens-before edges and hide races from the race detector.
 var (
-	yieldMask  int64 // yield when (clock & yieldMask) == 0; -1 disables
-	sleepMask  int64
-	curSched   *sched.Sched
-	siteHits   [128]int64 // evidence only; written by the serialized scheduler modes
+	yieldMask int64 // yield when (clock & yieldMask) == 0; -1 disables
+	sleepMask int64
+	curSched  *sched.Sched
+	siteHits  [128]int64 // evidence only; written by the serialized scheduler modes
 )
 
 func hooksOff() {
